@@ -73,7 +73,7 @@ def fresh(name, sort=R):
 
 def _solver():
     s = z3.Solver()
-    s.set('rlimit', ST.rlimit); s.set('timeout', 10000)
+    s.set('rlimit', ST.rlimit); s.set('timeout', DECIDE_TIMEOUT_MS)
     return s
 
 
@@ -477,6 +477,7 @@ class Verdict:
 
 CVC5_BIN = '/usr/bin/cvc5'
 PROVE_TIMEOUT_MS = 12000
+DECIDE_TIMEOUT_MS = 1500
 
 
 def _cvc5(smt2, timeout_s=20):
